@@ -21,6 +21,7 @@ import (
 
 	"github.com/anishathalye/porcupine"
 	mail "github.com/wneessen/go-mail"
+	"github.com/wneessen/go-mail/log"
 
 	"verif/internal/ev"
 	"verif/internal/faultio"
@@ -43,6 +44,8 @@ type c13Case struct {
 	// Fallback: the Client is configured with a fallback port (WithTLSPortPolicy(TLSOpportunistic): 587, then 25);
 	// nothing answers on the primary port, the reference server is reached through the fallback
 	Fallback bool `json:"fallback_port,omitempty"`
+	// DebugLog: WithDebugLog and one log.Stdlog value (WithLogger) shared by all connections of the Client
+	DebugLog bool `json:"debug_log,omitempty"`
 }
 
 type c13Viol struct {
@@ -126,6 +129,10 @@ func c13Run(c c13Case) c13Report {
 	}
 	if c.Auth != "" {
 		copts = append(copts, mail.WithSMTPAuth(authTypeNoEnc(c.Auth)), mail.WithUsername("c13user"), mail.WithPassword("c13-secret-pass"))
+	}
+	logSink := &lockedBuf{}
+	if c.DebugLog {
+		copts = append(copts, mail.WithDebugLog(), mail.WithLogger(log.New(logSink, log.LevelDebug)))
 	}
 	cl, err := mail.NewClient(netHost, copts...)
 	if err != nil {
@@ -425,6 +432,9 @@ func c13Child(args []string) int {
 	if len(args) > 6 {
 		c.Fallback = args[6] == "fallback"
 	}
+	if len(args) > 7 {
+		c.DebugLog = args[7] == "debuglog"
+	}
 	rep := c13Run(c)
 	b, _ := json.Marshal(rep)
 	fmt.Printf("C13REPORT %s\n", b)
@@ -433,7 +443,7 @@ func c13Child(args []string) int {
 
 func runC13(r *ev.Run, rep *ev.ReplayDoc) ev.Summary {
 	sum := ev.Summary{
-		Rule: "G in {2,4,8,16,32,64} goroutines, each sending a batch of 1-3 distinct messages (unique ids and envelopes - a third of them with local parts that need quoting -, 100 B - 300 KB, some with producers that yield or sleep between chunks, in every third repetition about half of them S/MIME signed through SignWithTLSCertificate with one shared certificate value) through ONE mail.Client: all via Send on one established connection, all via DialAndSend, and mixed (in half of the DialAndSend / mixed repetitions the Client has a fallback port and nothing answers on the primary one); the reference server adds seeded latency jitter to every reply and reads DATA slowly. Every repetition runs in its own child process built with -race. non-trivial = at least two Sends were in flight at a commit instant; distinct by commit order",
+		Rule: "G in {2,4,8,16,32,64} goroutines, each sending a batch of 1-3 distinct messages (unique ids and envelopes - a third of them with local parts that need quoting -, 100 B - 300 KB, some with producers that yield or sleep between chunks, in every third repetition about half of them S/MIME signed through SignWithTLSCertificate with one shared certificate value) through ONE mail.Client: all via Send on one established connection, all via DialAndSend, and mixed (in a quarter of the repetitions with the debug log on and one log.Stdlog value shared by all connections; in half of the DialAndSend / mixed repetitions the Client has a fallback port and nothing answers on the primary one); the reference server adds seeded latency jitter to every reply and reads DATA slowly. Every repetition runs in its own child process built with -race. non-trivial = at least two Sends were in flight at a commit instant; distinct by commit order",
 		Assumptions: []string{
 			"exactly-once, envelope/content pairing and transaction contiguity are judged from the reference server's per-connection logs; expected renderings are produced after all sends returned",
 			"porcupine (v1.3.0) checks that the shared connection's commit log is a linearization of the Send calls w.r.t. an append-only-log model; a checker timeout is inconclusive",
@@ -443,7 +453,7 @@ func runC13(r *ev.Run, rep *ev.ReplayDoc) ev.Summary {
 	}
 	exe, _ := os.Executable()
 	runChild := func(c c13Case) {
-		cmd := exec.Command(exe, "child", "c13", c.Mode, fmt.Sprint(c.G), fmt.Sprint(c.Rep), fmt.Sprint(c.Seed), c.Auth, map[bool]string{true: "smime", false: "plain"}[c.SMIME], map[bool]string{true: "fallback", false: "direct"}[c.Fallback])
+		cmd := exec.Command(exe, "child", "c13", c.Mode, fmt.Sprint(c.G), fmt.Sprint(c.Rep), fmt.Sprint(c.Seed), c.Auth, map[bool]string{true: "smime", false: "plain"}[c.SMIME], map[bool]string{true: "fallback", false: "direct"}[c.Fallback], map[bool]string{true: "debuglog", false: "nolog"}[c.DebugLog])
 		cmd.Env = os.Environ()
 		var outb, errb bytes.Buffer
 		cmd.Stdout, cmd.Stderr = &outb, &errb
@@ -517,6 +527,9 @@ func runC13(r *ev.Run, rep *ev.ReplayDoc) ev.Summary {
 		if c.Fallback {
 			r.Count("runs_through_a_fallback_port", 1)
 		}
+		if c.DebugLog {
+			r.Count("runs_with_a_shared_debug_logger", 1)
+		}
 		r.Eval(cr.CommitOrder, cr.MaxInFlight >= 2)
 	}
 	if rep != nil {
@@ -549,6 +562,7 @@ func runC13(r *ev.Run, rep *ev.ReplayDoc) ev.Summary {
 				if mode != "shared" && (i+g/4)%2 == 1 {
 					cs.Fallback, cs.Auth = true, ""
 				}
+				cs.DebugLog = (i+g/8)%4 == 2
 				cases = append(cases, cs)
 			}
 		}
